@@ -721,7 +721,7 @@ func (Scenario) Run(c choice.Chooser, opt sim.Options) (res sim.Result) {
 	for step := 0; step < nOps; step++ {
 		res.Steps++
 		ids := w.nodeIDs()
-		kind := choice.Pick(c, "op:kind", []int{8, 12, 4, 5, 2, 2, 3, 1, 2, 2})
+		kind := choice.Pick(c, "op:kind", []int{8, 12, 4, 5, 2, 2, 3, 1, 2, 2, 2})
 		if len(ids) == 0 {
 			kind = 0
 		}
@@ -939,6 +939,49 @@ func (Scenario) Run(c choice.Chooser, opt sim.Options) (res sim.Result) {
 			p := try(func() { w.inst.DeleteNode(id) })
 			hist = append(hist, fmt.Sprintf("delete %s %s", id, p))
 			res.Count("op:delete-node", 1)
+		case 10: // the edit server's rhythm: every edit is followed by an autosave. Remove the newest node nothing depends on, add another one (ids are handed out again)
+			auto := func() *sim.Result {
+				keepSession = true
+				r := restart()
+				keepSession = false
+				return r
+			}
+			if r := auto(); r != nil {
+				return *r
+			}
+			ids = w.nodeIDs()
+			victim := ""
+			for _, id := range ids {
+				n := w.inst.Node(id)
+				used := false
+				for _, o := range ids {
+					if o == id {
+						continue
+					}
+					for _, d := range w.inst.Node(o).Dependencies() {
+						if d.Dependency() == n {
+							used = true
+						}
+					}
+				}
+				if !used && (victim == "" || len(id) > len(victim) || (len(id) == len(victim) && id > victim)) {
+					victim = id
+				}
+			}
+			if victim != "" {
+				p := try(func() { w.inst.DeleteNode(victim) })
+				hist = append(hist, fmt.Sprintf("delete %s %s", victim, p))
+				res.Count("op:delete-node", 1)
+			}
+			ti := typeTable[menu[choice.Pick(c, "create:type", weights)]]
+			var id string
+			p := try(func() { _, id, _ = w.inst.CreateNode(ti.Key) })
+			hist = append(hist, fmt.Sprintf("create %s -> %s %s", shortType(ti.Key), id, p))
+			res.Count("op:create", 1)
+			res.Count("op:delete-then-create-between-autosaves", 1)
+			if r := auto(); r != nil {
+				return *r
+			}
 		case 9: // autosave: save, check the file against the live graph, continue in the same session
 			keepSession = true
 			r := restart()
